@@ -84,22 +84,25 @@ int32 __wrap_csChacha20Poly1305IetfEncryptTls13(void *ssl, unsigned char *pt, un
 /* ---------------------------------------------------------------- queues of records */
 #define QCAP (1 << 20)
 #define MQ 4096
-typedef struct { int outer, inner, sealed, early; } rmeta_t;
+typedef struct { int outer, inner, sealed, early; int dgend; } rmeta_t;   /* dgend: DTLS - last record of its datagram */
+static int g_sdtls = 0;          /* the current scenario runs DTLS sessions (`new dtls=1`): 13-byte record headers, datagram-wise output */
+#define SESS_RHL (g_sdtls ? 13 : 5)   /* record header length of the current scenario */
 typedef struct { unsigned char *b; size_t len; rmeta_t m[MQ]; int mh, mt; } queue_t;
 static void q_init(queue_t *q) { if (!q->b) q->b = malloc(QCAP); q->len = 0; q->mh = q->mt = 1024; }
-static void q_meta_push_head(queue_t *q, int outer, int inner, int sealed) { if (q->mh > 0) { q->mh--; rmeta_t *m = &q->m[q->mh % MQ]; m->outer = outer; m->inner = inner; m->sealed = sealed; m->early = 0; } }
+static void q_meta_push_head(queue_t *q, int outer, int inner, int sealed) { if (q->mh > 0) { q->mh--; rmeta_t *m = &q->m[q->mh % MQ]; m->outer = outer; m->inner = inner; m->sealed = sealed; m->early = 0; m->dgend = 1; } }
 static int g_meta_early = 0;   /* set while the sender is a client sealing 0-RTT data under the early traffic key */
-static void q_meta_push(queue_t *q, int outer, int inner, int sealed) { rmeta_t *m = &q->m[q->mt++ % MQ]; m->outer = outer; m->inner = inner; m->sealed = sealed; m->early = (sealed && g_meta_early); }
-static rmeta_t q_meta_pop(queue_t *q) { rmeta_t z = { -1, -1, -1, 0 }; if (q->mh == q->mt) return z; return q->m[q->mh++ % MQ]; }
+static void q_meta_push(queue_t *q, int outer, int inner, int sealed) { rmeta_t *m = &q->m[q->mt++ % MQ]; m->outer = outer; m->inner = inner; m->sealed = sealed; m->early = (sealed && g_meta_early); m->dgend = 1; }
+static rmeta_t q_meta_pop(queue_t *q) { rmeta_t z = { -1, -1, -1, 0, 1 }; if (q->mh == q->mt) return z; return q->m[q->mh++ % MQ]; }
 static uint64_t g_wire_hash[2] = { 1469598103934665603ULL, 1469598103934665603ULL }; static size_t g_wire_len[2];
 static int g_sendchunk = 0;     /* >0: drain outdata by partial sends of this many bytes */
 static int g_callsep = 0;       /* print "/" after every matrixSslReceivedData cycle */
 static void q_push(queue_t *q, const unsigned char *d, size_t l) { if (q->len + l <= QCAP) { memcpy(q->b + q->len, d, l); q->len += l; } }
 static void q_pop(queue_t *q, size_t l) { memmove(q->b, q->b + l, q->len - l); q->len -= l; }
-/* length of the first TLS record in the queue (0 if none / incomplete) */
+/* length of the first TLS / DTLS record in the queue (0 if none / incomplete) */
 static size_t q_reclen(queue_t *q) {
-    if (q->len < 5) return 0;
-    size_t l = 5 + ((size_t) q->b[3] << 8) + q->b[4];
+    size_t h = (size_t) SESS_RHL;
+    if (q->len < h) return 0;
+    size_t l = h + ((size_t) q->b[h-2] << 8) + q->b[h-1];
     return l <= q->len ? l : 0;
 }
 
@@ -154,14 +157,85 @@ static void print_snap(peer_t *p) {
            s->tls13ClientEarlyDataEnabled ? 1 : 0, s->tls13ServerEarlyDataEnabled ? 1 : 0,
            (s->flags & SSL_FLAGS_AEAD_R) ? 1 : 0, (int) s->deBlockSize, (int) s->deMacSize,
            s->decState == SSL_HS_CCC ? 1 : 0, (s->sid && s->sid->sessionTicketState == SESS_TICKET_STATE_RECVD_EXT) ? 1 : 0);
+#ifdef USE_DTLS
+    /* DTLS sessions only (TLS snapshots keep their format): expected read epoch, CCS-parsed flag, application-data-exchanged flag,
+       replay window (last sequence number, 32-bit bitmap), flight-done flag, pending output bytes, current write epoch,
+       SSL_FLAGS_RESUMED, SSL_FLAGS_CLIENT_AUTH (inputs of canResend) */
+    if (s->flags & SSL_FLAGS_DTLS)
+        printf(",dt=1,xe=%d,pc=%d,ax=%d,lr=%lu,bm=%lx,fd=%d,ol=%d,we=%d,rs=%d,ca=%d", (s->expectedEpoch[0] << 8) | s->expectedEpoch[1], s->parsedCCS ? 1 : 0,
+               s->appDataExch ? 1 : 0, ((unsigned long) s->lastRsn[2] << 24) | ((unsigned long) s->lastRsn[3] << 16) | ((unsigned long) s->lastRsn[4] << 8) | s->lastRsn[5],
+               (unsigned long) s->dtlsBitmap, (int) s->flightDone, (int) s->outlen, (s->epoch[0] << 8) | s->epoch[1],
+               (s->flags & SSL_FLAGS_RESUMED) ? 1 : 0, (s->flags & SSL_FLAGS_CLIENT_AUTH) ? 1 : 0);
+#endif
 }
 
 /* move whatever the peer wants to send into the queue towards the other side */
 static int g_in_poll = 0;
 static void poll_rx(peer_t *p);
+#ifdef USE_DTLS
+/* DTLS: output is fetched datagram by datagram (matrixDtlsGetOutdata / matrixDtlsSentData).  Calling matrixDtlsGetOutdata with
+   nothing pending is how an application signals a TIMEOUT (the last flight is rebuilt and sent again), so the harness only
+   calls it when output is pending, when matrixSslReceivedData asked for a retransmission (g_dtls_resend, set by feed) or on
+   the explicit `resend` command.  Every record goes to the wire queue individually; rmeta.dgend marks datagram ends. */
+static int g_dtls_resend = 0;
+/* A retransmission request / timeout is followed only on a flight boundary: a client that has sent ClientHello (SERVER_HELLO), its
+   second flight (FINISHED, full handshake) or everything (DONE); a server expecting ClientHello, the client's second flight
+   (CERTIFICATE with client authentication, else CLIENT_KEY_EXCHANGE), a resuming server expecting Finished, or DONE.  Since the
+   repair of canResend (/repo eb793e2) the library refuses the other states itself; before it, rebuilding a flight there
+   dereferenced NULL (client midway through the server's flight) or ran into the freed flight list (server between the client's
+   ChangeCipherSpec and Finished), which killed the harness process.  Elsewhere the request is logged and not followed, as if the
+   retransmission had been lost on the way. */
+static int dtls_resend_safe(ssl_t *s) {
+    if (s->flags & SSL_FLAGS_SERVER)
+        return s->hsState == SSL_HS_CLIENT_HELLO || s->hsState == SSL_HS_DONE || (s->hsState == SSL_HS_FINISHED && (s->flags & SSL_FLAGS_RESUMED))
+               || s->hsState == ((s->flags & SSL_FLAGS_CLIENT_AUTH) ? SSL_HS_CERTIFICATE : SSL_HS_CLIENT_KEY_EXCHANGE);
+    return s->hsState == SSL_HS_SERVER_HELLO || s->hsState == SSL_HS_DONE || (s->hsState == SSL_HS_FINISHED && !(s->flags & SSL_FLAGS_RESUMED));
+}
+static size_t flush_out_dtls(peer_t *p) {
+    size_t total = 0; unsigned char *buf; int32 n; int guard = 0;
+    if (p->ssl->outlen == 0 && !g_dtls_resend) return 0;
+    if (p->ssl->outlen == 0 && !dtls_resend_safe(p->ssl)) { g_dtls_resend = 0; P("[resend-skipped]"); return 0; }
+    g_dtls_resend = 0;
+    while (guard++ < 200) {
+        n = matrixDtlsGetOutdata(p->ssl, &buf);
+        if (n < 0) {
+            P("[getout:E%d]", n);
+            /* a failed flight rebuild could leave ssl->outbuf dangling (before /repo 12b3d54): the session object is not touched
+               again, not even freed (as h_dtlswin.c does) */
+            if (n != PS_PROTOCOL_FAIL) { P("[abandoned]"); p->ssl = NULL; return total; }
+            break;
+        }
+        if (n == 0) break;
+        queue_t *q = p->is_server ? &g_s2c : &g_c2s;
+        for (int32 hi = 0; hi < n; hi++) { g_wire_hash[p->is_server] = (g_wire_hash[p->is_server] ^ buf[hi]) * 1099511628211ULL; }
+        g_wire_len[p->is_server] += (size_t) n;
+        q_push(q, buf, (size_t) n);
+        size_t off = 0; rmeta_t *last = NULL;
+        P("out=[");
+        while (off + 13 <= (size_t) n) {
+            size_t l = 13 + ((size_t) buf[off+11] << 8) + buf[off+12]; int outer = buf[off];
+            int sealed = (buf[off+3] || buf[off+4]) ? 1 : 0;          /* epoch > 0: written under the negotiated keys */
+            q_meta_push(q, outer, outer, sealed); last = &q->m[(q->mt - 1) % MQ]; last->dgend = 0;
+            P("%d:%d:%d,", outer, outer, sealed);
+            off += l;
+        }
+        if (last) last->dgend = 1;
+        P("] ");
+        total += (size_t) n;
+        int32 rc = matrixDtlsSentData(p->ssl, (uint32) n);
+        if (rc == MATRIXSSL_HANDSHAKE_COMPLETE) { p->done_events++; P("[sent:HSDONE]"); }
+        else if (rc == MATRIXSSL_REQUEST_CLOSE) { P("[sent:CLOSE]"); break; }
+        else if (rc < 0) { P("[sent:E%d]", rc); break; }
+    }
+    return total;
+}
+#endif
 static size_t flush_out(peer_t *p) {
     size_t total = 0; unsigned char *buf; int32 n;
     if (!p->ssl) return 0;
+#ifdef USE_DTLS
+    if (p->ssl->flags & SSL_FLAGS_DTLS) return flush_out_dtls(p);
+#endif
     while ((n = matrixSslGetOutdata(p->ssl, &buf)) > 0) {
         queue_t *q = p->is_server ? &g_s2c : &g_c2s;
         if (g_sendchunk > 0 && n > g_sendchunk) n = g_sendchunk;
@@ -239,7 +313,15 @@ static void feed(peer_t *p, const unsigned char *d, size_t l, size_t chunk) {
                 rc = matrixSslProcessedData(p->ssl, &pt, &ptlen); continue;
             }
             if (rc == MATRIXSSL_HANDSHAKE_COMPLETE) { p->done_events++; P("HSDONE "); break; }
-            if (rc == MATRIXSSL_REQUEST_SEND) { P("SEND "); break; }
+            if (rc == MATRIXSSL_REQUEST_SEND) {
+                P("SEND ");
+#ifdef USE_DTLS
+                /* DTLS_RETRANSMIT: nothing was encoded, the library asks the application to call matrixDtlsGetOutdata so that the
+                   last flight is rebuilt */
+                if ((p->ssl->flags & SSL_FLAGS_DTLS) && p->ssl->outlen == 0) { P("RESEND "); g_dtls_resend = 1; }
+#endif
+                break;
+            }
             if (rc == MATRIXSSL_REQUEST_RECV) { break; }
             if (rc == MATRIXSSL_SUCCESS) { P("OK "); break; }
             if (rc == MATRIXSSL_REQUEST_CLOSE) { P("CLOSE "); break; }
@@ -268,11 +350,24 @@ typedef struct {
     int psk /* external TLS 1.3 PSK on both sides (allows client early data) */, smaxed /* server tls13SessionMaxEarlyData */;
     const char *name; int year; uint64_t seed;
     int keep_skeys;
+    int dtls;      /* 1: DTLS sessions (cv/sv minor 3 = DTLS 1.2, 2 = DTLS 1.0) */
 } scfg_t;
 
 static psProtocolVersion_t minor2ver(int m) {
     switch (m) { case 2: return v_tls_1_1; case 3: return v_tls_1_2; case 4: return v_tls_1_3; }
     return v_tls_1_2;
+}
+
+/* DTLS: version flags as apps/dtls does (SSL_FLAGS_DTLS | SSL_FLAGS_TLS_1_2 enables DTLS 1.2 and 1.0, SSL_FLAGS_DTLS |
+   SSL_FLAGS_TLS_1_1 enables DTLS 1.0 only; matrixsslInitVer.c initSupportedVersions) */
+static int32 dtls_version_flag(const int *minor, int n) {
+    int want12 = (n == 0);
+    for (int i = 0; i < n; i++) if (minor[i] >= 3) want12 = 1;
+#ifdef USE_DTLS
+    return SSL_FLAGS_DTLS | (want12 ? SSL_FLAGS_TLS_1_2 : SSL_FLAGS_TLS_1_1);
+#else
+    return 0;
+#endif
 }
 
 static int load_identity(sslKeys_t *k, int key, int with_id, int ca) {
@@ -297,9 +392,11 @@ static int sess_new(scfg_t *c) {
     if (!c->keep_skeys) {            /* independent scenarios: reset the library's global state (session cache, PRNG) */
         if (g_skeys_persist) { matrixSslDeleteKeys(g_skeys_persist); g_skeys_persist = NULL; }
         if (g_saved_sid) { matrixSslDeleteSessionId(g_saved_sid); g_saved_sid = NULL; }
+        if (c->dtls) ent_seed(c->seed ^ 0x44544c53);      /* matrixSslOpen draws the DTLS cookie secret */
         matrixSslClose(); if (matrixSslOpen() < 0) return -9;
         g_vtime = 1592222400;
     }
+    g_sdtls = c->dtls ? 1 : 0;
     g_wire_hash[0] = g_wire_hash[1] = 1469598103934665603ULL; g_wire_len[0] = g_wire_len[1] = 0;
     q_init(&g_c2s); q_init(&g_s2c);
     ent_seed(c->seed);
@@ -329,6 +426,8 @@ static int sess_new(scfg_t *c) {
     sslSessOpts_t so; memset(&so, 0, sizeof so);
     psProtocolVersion_t v[4];
     for (int i = 0; i < c->nsver; i++) v[i] = minor2ver(c->sver[i]);
+    if (c->dtls) so.versionFlag = dtls_version_flag(c->sver, c->nsver);
+    else
     if (c->nsver && (rc = matrixSslSessOptsSetServerTlsVersions(&so, v, c->nsver)) < 0) return rc - 3000;
     if (c->ems < 0) so.extendedMasterSecret = -1;
     if (c->smaxed) so.tls13SessionMaxEarlyData = (psSize_t) c->smaxed;
@@ -338,6 +437,8 @@ static int sess_new(scfg_t *c) {
     if (c->cauth && c->scb == 0) g_s.ssl->sec.validateCert = NULL;
     memset(&so, 0, sizeof so);
     for (int i = 0; i < c->ncver; i++) v[i] = minor2ver(c->cver[i]);
+    if (c->dtls) so.versionFlag = dtls_version_flag(c->cver, c->ncver);
+    else
     if (c->ncver && (rc = matrixSslSessOptsSetClientTlsVersions(&so, v, c->ncver)) < 0) return rc - 5000;
     if (c->ems < 0) so.extendedMasterSecret = -1;
     if (c->ticket) so.ticketResumption = 1;
@@ -360,9 +461,35 @@ static int deliver_one(int dir, size_t chunk) {
     if (!l) return 0;
     unsigned char *tmp = malloc(l); memcpy(tmp, q->b, l); q_pop(q, l);
     rmeta_t m = q_meta_pop(q);
+    if (g_sdtls)    /* DTLS: 13-byte header; epoch and (low 32 bits of the) record sequence number are part of the metadata */
+        P("[o=%d i=%d s=%d l=%zu b=%02x%02x e=%d ep=%d sq=%lu dg=%d vr=%02x%02x] ", tmp[0], m.inner, m.sealed, l - 13, l > 13 ? tmp[13] : 0, l > 14 ? tmp[14] : 0, m.early,
+          (tmp[3] << 8) | tmp[4], ((unsigned long) tmp[7] << 24) | ((unsigned long) tmp[8] << 16) | ((unsigned long) tmp[9] << 8) | tmp[10], m.dgend, tmp[1], tmp[2]);
+    else
     P("[o=%d i=%d s=%d l=%zu b=%02x%02x e=%d] ", tmp[0], m.inner, m.sealed, l - 5, l > 5 ? tmp[5] : 0, l > 6 ? tmp[6] : 0, m.early);
     feed(to, tmp, l, chunk); free(tmp);
     return 1;
+}
+
+/* DTLS: deliver the head DATAGRAM of a direction (all records up to the next datagram end) in one receive call */
+static int deliver_dgram(int dir) {
+    queue_t *q = dir ? &g_s2c : &g_c2s; peer_t *to = dir ? &g_c : &g_s;
+    size_t total = 0, off = 0; int nrec = 0;
+    if (!q_reclen(q)) return 0;
+    P("[dg:");
+    for (;;) {
+        size_t h = (size_t) SESS_RHL;
+        if (q->len - off < h) break;
+        size_t l = h + ((size_t) q->b[off+h-2] << 8) + q->b[off+h-1];
+        if (off + l > q->len) break;
+        rmeta_t m = q_meta_pop(q); nrec++;
+        P("%d:%d:%zu,", q->b[off], m.sealed, l - h);
+        off += l; total = off;
+        if (m.dgend) break;
+    }
+    P("] ");
+    unsigned char *tmp = malloc(total + 1); memcpy(tmp, q->b, total); q_pop(q, total);
+    feed(to, tmp, total, 0); free(tmp);
+    return nrec;
 }
 
 /* run until nothing moves; returns number of records delivered */
